@@ -90,6 +90,8 @@ def gen_source(rng):
         f = dict(rng.choice(FILES))
         f["kind"] = "file"
         f["ctor"] = rng.choice(["from_dataset", "from_dataset", "open_grid_ds", "open_grid_path"])
+        if f["ctor"] != "open_grid_path" and rng.random() < 0.4:
+            f["cast"] = "int64"
         return f
     name, params = rng.choice(MESHES)
     spec = {"kind": "mesh", "mesh": name, "params": params, "variant": rng.choice([0, 1, 2]), "jitter": rng.choice([0.0, 0.2]), "ctor": rng.choice(CTORS)}
@@ -106,6 +108,8 @@ def gen_source(rng):
             extra += ["edge_nodes", rng.choice(["edge_lonlat", "edge_xyz"])]
         d["extra"] = extra
         d["xyz_scale"] = rng.choice([1.0, 1.0, 2.0, 6371.0])
+    if spec["ctor"] == "vertices_xyz":
+        d["xyz_scale"] = rng.choice([1.0, 1.0, 0.5, 6371.0])
     spec["dialect"] = d
     return spec
 
@@ -135,6 +139,15 @@ def prepare(spec, scratch):
         if ctor == "open_grid_path":
             return {"path": path}, lambda: ux.open_grid(path, use_dual=dual)
         ds = xr.open_dataset(path)
+        if spec.get("cast") == "int64":
+            # the same source held in memory with 64-bit index tables (readers may skip a copy then)
+            ds = ds.load()
+            for vn in list(ds.variables):
+                try:
+                    if ds[vn].dtype.kind in "iu" and ds[vn].dtype != np.int64:
+                        ds[vn] = ds[vn].astype(np.int64)
+                except Exception:
+                    pass  # e.g. variables with duplicate dimensions (GEOS-CS): left as they are
         ds.attrs["caller_note"] = "mine"
         if ctor == "from_dataset":
             return {"dataset": ds}, lambda: ux.Grid.from_dataset(ds, use_dual=dual)
@@ -149,7 +162,7 @@ def prepare(spec, scratch):
             return {"dict": kw}, lambda: ux.open_grid(kw)
         return {"kwargs": kw}, lambda: ux.Grid.from_topology(**kw)
     if ctor in ("vertices", "vertices_list", "vertices_xyz"):
-        arr = Wd.vertices_array(mesh, xyz=(ctor == "vertices_xyz"))
+        arr = Wd.vertices_array(mesh, xyz=(ctor == "vertices_xyz"), scale=(d.get("xyz_scale", 1.0) if ctor == "vertices_xyz" else 1.0))
         if ctor == "vertices_list":
             arr = arr.tolist()
         return {"face_vertices": arr}, lambda: ux.Grid.from_face_vertices(arr, latlon=(ctor != "vertices_xyz"))
@@ -237,7 +250,7 @@ class Alias(Profile):
 
     def source_class(self, spec):
         if spec.get("kind") == "file":
-            return f"file:{spec['path']}:{spec.get('ctor')}" + (":dual" if spec.get("use_dual") else "")
+            return f"file:{spec['path']}:{spec.get('ctor')}" + (":dual" if spec.get("use_dual") else "") + (":i64" if spec.get("cast") else "")
         d = spec.get("dialect") or {}
         return f"{spec['mesh']}/{spec.get('ctor')}/{','.join(sorted(d.get('extra', [])))}"
 
